@@ -23,6 +23,46 @@ def chain(ctx, recs, failures):
     ctx.coverage["whole_pipeline_in_model"] = dict(SP.run_chain(ctx, texts))
 
 
+def includes_in_place(ctx, recs, failures):
+    """C06's include clause on real files: the graph of a program with includes equals the graph of the program with
+    the included texts spliced in place (same statements in the same order, annotations pending at an include
+    attached to the first statement it expands to).  Arrangements and the splice are C18's (vf/c18.py)."""
+    import json, random, re
+    from . import c18
+    from . import gen_text as G
+    from . import pipeline as PL
+    rnd = random.Random(ctx.seed + 61)
+    n = 500 if ctx.tier == "quick" else 8000
+    cases = [c18.gen_case(rnd, 200000 + i) for i in range(n)]
+    out = C.run_impl(ctx, "include", [json.dumps({k: v for k, v in c.items() if k != "root"}) for c in cases], tag="c06inc")
+    spl, idx = [], []
+    for i, c in enumerate(cases):
+        if "if (true)" in c["main"]:
+            continue
+        t = c18.splice(c, c["main"])
+        if t is not None:
+            spl.append(t); idx.append(i)
+    sp = dict(zip(idx, zip(spl, C.run_impl(ctx, "sema", [G.enc(t) for t in spl], tag="c06spl"))))
+    nchk = 0
+    for i, c in enumerate(cases):
+        a = out[i]
+        if i not in sp or not a.startswith("asg=") or not sp[i][1].startswith("asg="):
+            continue
+        nchk += 1
+        fa, fs = PL.fields(a), PL.fields(sp[i][1])
+        if fa["asg"] != fs["asg"]:
+            failures.append({"case": json.dumps({k: v for k, v in c.items() if k != "root"}), "check": "includes_in_place",
+                             "detail": {"main": c["main"], "spliced": sp[i][0], "with_includes": fa["asg"][:400], "spliced_graph": fs["asg"][:400]},
+                             "guards": set(), "model_agrees": True,
+                             "replay_how": "echo '<case json>' | /verif/harness/target/debug/oq3-run include ; compare asg= with oq3-run sema on the spliced text"})
+    ctx.coverage["include_arrangements_compared"] = nchk
+
+
+def post_all(ctx, recs, failures):
+    chain(ctx, recs, failures)
+    includes_in_place(ctx, recs, failures)
+
+
 def check(ctx):
-    return SC.run(ctx, "C06", ["Oq3.Props.C06"], [OC], progs(ctx), post=chain, rule=
+    return SC.run(ctx, "C06", ["Oq3.Props.C06"], [OC], progs(ctx), post=post_all, rule=
                   "generated programs (gen_prog: all statement arms, faults) + reference-language programs (gen_ref: all statement kinds nested to depth 4 (thorough: 5), block and single-statement bodies in every combination, every operator); oracle: the skeleton of the graph predicted from the typed-AST dump alone (statement kinds in source order, blocks, roles, operand/argument/qubit/index/modifier order, operator identity, literal class and value, referenced names, annotations on the FOLLOWING statement, pragma text verbatim) compared node by node with the real graph")
